@@ -79,13 +79,6 @@ func (s segment) Index() int {
 }
 
 func resolve(sel Selector, subject ipld.Node, at []string) (ipld.Node, error) {
-	errIfNotOptional := func(s segment, err error) error {
-		if !s.Optional() {
-			return err
-		}
-		return nil
-	}
-
 	cur := subject
 	for _, seg := range sel {
 		// 1st level: handle the different segment types (iterator, field, slice, index)
@@ -139,8 +132,10 @@ func resolve(sel Selector, subject ipld.Node, at []string) (ipld.Node, error) {
 			at = append(at, seg.Field())
 			switch {
 			case cur == nil:
-				err := newResolutionError(fmt.Sprintf("can not access field: %s on kind: %s", seg.Field(), kindString(cur)), at)
-				return nil, errIfNotOptional(seg, err)
+				if !seg.Optional() {
+					return nil, newResolutionError(fmt.Sprintf("can not access field: %s on kind: %s", seg.Field(), kindString(cur)), at)
+				}
+				// optional: still no value, keep resolving the remaining segments
 
 			case cur.Kind() == datamodel.Kind_Map:
 				n, err := cur.LookupByString(seg.Field())
@@ -156,14 +151,18 @@ func resolve(sel Selector, subject ipld.Node, at []string) (ipld.Node, error) {
 				}
 
 			default:
-				err := newResolutionError(fmt.Sprintf("can not access field: %s on kind: %s", seg.Field(), kindString(cur)), at)
-				return nil, errIfNotOptional(seg, err)
+				if !seg.Optional() {
+					return nil, newResolutionError(fmt.Sprintf("can not access field: %s on kind: %s", seg.Field(), kindString(cur)), at)
+				}
+				cur = nil
 			}
 
 		case len(seg.Slice()) > 0:
 			if cur == nil {
-				err := newResolutionError(fmt.Sprintf("can not slice on kind: %s", kindString(cur)), at)
-				return nil, errIfNotOptional(seg, err)
+				if !seg.Optional() {
+					return nil, newResolutionError(fmt.Sprintf("can not slice on kind: %s", kindString(cur)), at)
+				}
+				continue
 			}
 
 			slice := seg.Slice()
@@ -207,8 +206,10 @@ func resolve(sel Selector, subject ipld.Node, at []string) (ipld.Node, error) {
 			at = append(at, strconv.Itoa(seg.Index()))
 
 			if cur == nil {
-				err := newResolutionError(fmt.Sprintf("can not access index: %d on kind: %s", seg.Index(), kindString(cur)), at)
-				return nil, errIfNotOptional(seg, err)
+				if !seg.Optional() {
+					return nil, newResolutionError(fmt.Sprintf("can not access index: %d on kind: %s", seg.Index(), kindString(cur)), at)
+				}
+				continue
 			}
 
 			idx := seg.Index()
@@ -218,8 +219,11 @@ func resolve(sel Selector, subject ipld.Node, at []string) (ipld.Node, error) {
 					idx = int(cur.Length()) + idx
 				}
 				if idx < 0 || idx >= int(cur.Length()) {
-					err := newResolutionError(fmt.Sprintf("index out of bounds: %d", seg.Index()), at)
-					return nil, errIfNotOptional(seg, err)
+					if !seg.Optional() {
+						return nil, newResolutionError(fmt.Sprintf("index out of bounds: %d", seg.Index()), at)
+					}
+					cur = nil
+					continue
 				}
 				cur, _ = cur.LookupByIndex(int64(idx))
 
@@ -229,13 +233,19 @@ func resolve(sel Selector, subject ipld.Node, at []string) (ipld.Node, error) {
 					idx = len(b) + idx
 				}
 				if idx < 0 || idx >= len(b) {
-					err := newResolutionError(fmt.Sprintf("index %d out of bounds for bytes of length %d", seg.Index(), len(b)), at)
-					return nil, errIfNotOptional(seg, err)
+					if !seg.Optional() {
+						return nil, newResolutionError(fmt.Sprintf("index %d out of bounds for bytes of length %d", seg.Index(), len(b)), at)
+					}
+					cur = nil
+					continue
 				}
 				cur = basicnode.NewInt(int64(b[idx]))
 
 			default:
-				return nil, newResolutionError(fmt.Sprintf("can not access index: %d on kind: %s", seg.Index(), kindString(cur)), at)
+				if !seg.Optional() {
+					return nil, newResolutionError(fmt.Sprintf("can not access index: %d on kind: %s", seg.Index(), kindString(cur)), at)
+				}
+				cur = nil
 			}
 		}
 	}
